@@ -60,7 +60,9 @@ func ConcurrentRetrieveWithCallback(ctx context.Context, tasks []*RetrieveTask) 
 			if report {
 				ctx = callbacks.OnStart(ctx, t.Query)
 			}
-			docs, err := t.Retriever.Retrieve(ctx, t.Query, t.RetrieveOptions...)
+			// without spare capacity: the same option slice is handed to every task, and a retriever appending to its opts
+			// must not write into the array the other calls are reading
+			docs, err := t.Retriever.Retrieve(ctx, t.Query, t.RetrieveOptions[:len(t.RetrieveOptions):len(t.RetrieveOptions)]...)
 			if err != nil {
 				if report {
 					callbacks.OnError(ctx, err)
